@@ -1440,7 +1440,8 @@ def run_context_histories(env, rng, n):
         if rng.random() < 0.4:
             p["maxBlockSize"] = rng.choice([1024, 4096])
         meta["kc%d" % i] = (p, x)
-        lines.append("K kc%d %s %s" % (i, codec.params_str(p), codec.hx(x)))
+        # every third case: an output array that is too small, ZSTD_generateSequences fails in the middle of the inner compression
+        lines.append("K kc%d %s %s %d" % (i, codec.params_str(p), codec.hx(x), rng.choice([1, 2, 3]) if i % 3 == 1 and len(x) >= 4000 else 0))
     out, crashes = env.impl(lines)
     for i, rc, err in crashes:
         p, x = meta.get(i, ({}, b""))
@@ -1451,9 +1452,6 @@ def run_context_histories(env, rng, n):
         if r is None:
             continue
         kv = dict(q.split("=", 1) for q in r.split(" ")[1:] if "=" in q)
-        if kv.get("gen", "E").startswith("E"):
-            ctx.count(("ctx", "collector", "generate-refused"), nontrivial=False)
-            continue
         if kv.get("sentinel") != "intact" or kv.get("same") != "1" or kv.get("d") != "ok":
             env.report(dict(kind="generate-then-compress2", params=p, input_hex=x.hex()[:200000], result=r[:300]), key=KEY_COLLECT,
                        what="after ZSTD_generateSequences the context keeps collecting: a later ZSTD_compress2 on it %s and returns %s bytes where a fresh "
@@ -1461,7 +1459,7 @@ def run_context_histories(env, rng, n):
                             % ("writes into the caller's old sequence array (entry %s)" % kv.get("sentinel", "?").split("@")[-1]
                                if kv.get("sentinel") != "intact" else "leaves the array alone", kv.get("c2"), kv.get("fresh")))
         else:
-            ctx.count(("ctx", "collector", "clean"), nontrivial=True)
+            ctx.count(("ctx", "collector", "clean", "generate-failed" if kv.get("gen", "E").startswith("E") else "generate-ok"), nontrivial=True)
     # ---- (c)
     lines, meta = [], {}
     for i in range(n):
@@ -1525,7 +1523,79 @@ def run_context_histories(env, rng, n):
             ctx.count(("ctx", "history", "failed-first" if first_failed else "ok-first", cs[0]["dictmode"] != "-", cs[0]["delims"]), nontrivial=True)
         if kv.get("setp", "ok") != "ok":
             session_open += 1
-    ctx.notes["session_left_open_after_compressSequences"] = session_open
+            if not first_failed:
+                # regression scenario for fix cc66b21: a completed frame closes its session (as after ZSTD_compress2)
+                env.report(dict(rp, result=r[:400]), key=KEY_SESSION,
+                           what="after a SUCCESSFUL ZSTD_compressSequences the context stays in the loading stage: ZSTD_CCtx_setParameter(ZSTD_c_checksumFlag) "
+                                "returns %s (the transparent initialisation is never undone; ZSTD_compressStream2 would continue the finished frame)" % kv.get("setp"))
+    ctx.notes["session_left_open_after_failed_compressSequences"] = session_open
+
+
+def compress_bound(n):
+    return n + (n >> 8) + (((128 << 10) - n) >> 11 if n < (128 << 10) else 0)
+
+
+def producer_many_short(env, rng):
+    """regression scenarios for the block splitter fed by a producer (fix: commits 3960417, 65eb70d): a valid parse made of
+    tens of thousands of 3-byte matches with no literals between them, offset statistics alternating every ~160 sequences (so
+    that the splitter's size estimates favour a split at every level of its recursion), block splitter ON, destination of
+    exactly ZSTD_compressBound(n) bytes: must succeed and decode to the source; and the same shape in 1 KiB blocks."""
+    lines, meta = [], {}
+    for j, (n, mbs, wl) in enumerate([(131072, 0, 17), (131072 + 70000, 0, 18), (8192, 1024, 17)]):
+        bs = mbs or 131072
+        x = bytearray(rng.randbytes(300))
+        resp, cur, ll = [], [], 300
+        blk_start = 0
+        while len(x) < n:
+            pos = len(x)
+            if pos - blk_start == bs or (pos - blk_start + 3 > bs) or pos + 3 > n:
+                # finish the block with literals
+                end = min(blk_start + bs, n)
+                fill = end - pos
+                x += rng.randbytes(fill)
+                cur.append((0, ll + fill, 0))
+                resp.append("S" + seqs_str(cur))
+                cur, ll, blk_start = [], 0, end
+                continue
+            inblk = pos - blk_start                      # validation restarts per block (known finding): stay inside the block
+            region = (pos // 480) % 2
+            lim = inblk if j != 1 else pos
+            if lim < 16:
+                x += rng.randbytes(1)
+                ll += 1
+                continue
+            off = rng.randint(4, 12) if region == 0 else rng.randint(max(13, lim // 2), lim)
+            for _ in range(3):
+                x.append(x[len(x) - off])
+            cur.append((off, ll, 3))
+            ll = 0
+        if cur or ll:
+            cur.append((0, ll, 0))
+            resp.append("S" + seqs_str(cur))
+        x = bytes(x[:n])
+        for val in ((0, 1) if j != 1 else (0,)):
+            p = {"level": 3, "windowLog": wl, "validateSequences": val, "blockSplitter": 1, "seqProducerFallback": 0}
+            if mbs:
+                p["maxBlockSize"] = mbs
+            i = "ms%d.%d" % (j, val)
+            meta[i] = (p, x, sum(r.count(",") for r in resp))
+            lines.append("P %s %s %s %s %d" % (i, codec.params_str(p), ";".join(resp), codec.hx(x), compress_bound(n)))
+    out, crashes = env.impl(lines)
+    for i, rc, err in crashes:
+        p, x, nseq = meta.get(i, ({}, b"", 0))
+        env.report(dict(kind="producer-splitter", params=p, input_hex=x.hex()[:400000], rc=rc, stderr=str(err)[-600:]),
+                   what="ZSTD_compress2 with a producer giving %d three-byte matches and the block splitter enabled crashed (status %s): %s" % (nseq, rc, str(err)[-200:].replace("\n", " ")))
+    for i, (p, x, nseq) in meta.items():
+        r = out.get(i)
+        if r is None:
+            continue
+        t = r.split(" ")
+        if t[0] != "OK" or "d=ok" not in t:
+            env.report(dict(kind="producer-splitter", params=p, input_hex=x.hex()[:400000], result=" ".join(t[:2] if t[0] != "OK" else t[2:])[:300]),
+                       what="ZSTD_compress2 with a producer giving a valid parse of %d three-byte matches, block splitter enabled, destination of ZSTD_compressBound(%d) bytes: %s"
+                            % (nseq, len(x), " ".join(t[:2])[:100] if t[0] != "OK" else [q for q in t if q.startswith("d=")]))
+        else:
+            env.ctx.count(("producer-splitter", nseq > 10000, p["validateSequences"], p.get("maxBlockSize", 0)), nontrivial=True)
 
 
 def run_producer(env, rng, n):
@@ -1858,6 +1928,7 @@ def run(ctx):
     run_q(env, gq)
     producer_huge_lengths(env)
     detect_producer_position(env)
+    producer_many_short(env, rng)
     run_producer(env, rng, 60 if quick else 600)
     run_context_histories(env, rng, 24 if quick else 200)
     ctx.notes["origins"] = {}
